@@ -407,4 +407,11 @@ def c13_h(ctx: Ctx):
     return per_item_loops(ctx, "C13-h", [('signac.sync:sync_projects', 'a job is synchronised with the handle / decision of the previous job'), ('signac.sync:_sync_job_workspaces', 'a file is copied to / from the path computed for the previous entry'), ('signac.sync:sync_jobs', 'state of a previous job leaks into this one')])
 
 
-RULES = [c13_a, c13_b, c13_c, c13_d, c13_e, c13_f, c13_g, c13_h]
+@rule("C13-i")
+def c13_i(ctx: Ctx):
+    """Whole-module cross-checks: no exchanged positional arguments in resolved internal calls; diagnostics (logging / warnings) do no work."""
+    from .lints import swapped_arguments, pure_logging
+    return swapped_arguments(ctx, "C13-i", ['signac.sync']) + pure_logging(ctx, "C13-i", ['signac.sync'])
+
+
+RULES = [c13_a, c13_b, c13_c, c13_d, c13_e, c13_f, c13_g, c13_h, c13_i]
